@@ -1054,11 +1054,20 @@ def _unchanged_paths(ctx, f, fg, r):
             return unparse(subst_locals(f.node, ast.parse(txt, mode="eval").body))
         except (SyntaxError, ValueError):
             return txt
-    for a in atoms:
-        if a[0] == "==" and isinstance(a[2], tuple) and a[2][0] == "src":
-            t1, t2 = resolved(a[1]), resolved(a[2][1])
-            if t1 == t2 and "get_workflow_status" in t1:
-                out.append(("WS", "status"))
+    def scan(ats):
+        for a in ats:
+            if a[0] == "==" and isinstance(a[2], tuple) and a[2][0] == "src":
+                t1, t2 = resolved(a[1]), resolved(a[2][1])
+                if t1 == t2 and "get_workflow_status" in t1:
+                    return True
+        return False
+    if scan(atoms):
+        out.append(("WS", "status"))
+    else:
+        # the comparison may hide in a boolean local (is_unchanged = ... and before == after)
+        alts = expand_alternatives(f, fg, atoms)
+        if alts and all(scan(alt) for alt in alts):
+            out.append(("WS", "status"))
     return out
 
 
